@@ -140,10 +140,12 @@ def fixed_items():
     # a chain of imports is fine
     yield ('import-chain|length 3', True, None, [('c0.stone', 'namespace c0\n\nimport c1\n\nstruct X0\n    f c1.X1\n'), ('c1.stone', 'namespace c1\n\nimport c2\n\nstruct X1\n    f c2.X2\n'),
                                                  ('c2.stone', 'namespace c2\n\nstruct X2\n    f Int32\n')])
-    # aliases: a cycle that passes only through nullables (or nothing) denotes no type; through a list or map it is a recursive type
+    # aliases: a cycle among aliases (directly or through nullables, lists, maps) denotes no type; recursion goes through structs and unions
     for lab, text, ok in (('alias-self', 'alias Aa = Aa\n', False), ('alias-cycle-2', 'alias Aa = Bb\nalias Bb = Aa\n', False), ('alias-cycle-3', 'alias Aa = Bb\nalias Bb = Cc\nalias Cc = Aa\n', False),
                           ('alias-cycle-through-nullable', 'alias Aa = Bb?\nalias Bb = Aa\n', False), ('alias-self-nullable', 'alias Aa = Aa?\n', False),
-                          ('alias-recursive-list', 'alias Aa = List(Aa)\nstruct S\n    f Aa\n', True), ('alias-recursive-map-2', 'alias Aa = Map(String, Bb)\nalias Bb = Aa?\nstruct S\n    f Bb\n', True)):
+                          ('alias-cycle-list', 'alias Aa = List(Aa)\nstruct S\n    f Aa\n', False), ('alias-cycle-map-2', 'alias Aa = Map(String, Bb)\nalias Bb = Aa?\nstruct S\n    f Bb\n', False),
+                          ('alias-cycle-list-2', 'alias Aa = List(Bb)\nalias Bb = Aa\n', False), ('alias-cycle-map-list', 'alias Aa = Map(String, List(Aa?))\n', False),
+                          ('recursive-struct-through-alias', 'alias Al = List(Node)\nstruct Node\n    kids Al\n', True), ('recursive-union-through-alias', 'alias Au = Tree?\nunion Tree\n    leaf\n    pair Map(String, Au)\n', True)):
         yield ('alias-shape|' + lab, ok, None if ok else 'alias-acyclic', [('m.stone', 'namespace mx\n\n' + text)])
     # examples
     pre = 'namespace mx\n\nstruct T\n    x Int32\n\n    example default\n        x = 1\n\n'
